@@ -34,7 +34,8 @@ class Contract:
         self.inline_calls = kw.pop("inline_calls", [])  # addrs inlined only while verifying this unit
         self.known = kw.pop("known", {})            # clause index -> known finding id
         self.ghost_entry = kw.pop("ghost_entry", [])   # ghost statements executed at function entry (ghost.* only)
-        self.hints = kw.pop("hints", [])            # instances of *proved lemmas* assumed at every exit
+        self.hints = kw.pop("hints", [])
+        self.merge_returns = kw.pop("merge_returns", False)   # check the postcondition once on the merged exit            # instances of *proved lemmas* assumed at every exit
         if kw:
             raise TypeError("unknown contract keys %r" % list(kw))
 
